@@ -53,6 +53,23 @@ static void init_scratch() {
   atexit(rm_scratch_at_exit);
 }
 
+std::string norm_paths(const std::string& s) {
+  if (g_scratch.empty() || s.size() < g_scratch.size() - 1) return s;
+  const std::string bare = g_scratch.substr(0, g_scratch.size() - 1);   // without the trailing '/'
+  size_t p = s.find(bare);
+  if (p == std::string::npos) return s;
+  std::string o;
+  size_t from = 0;
+  while (p != std::string::npos) {
+    o.append(s, from, p - from);
+    o += '@';
+    from = p + bare.size();
+    p = s.find(bare, from);
+  }
+  o.append(s, from, std::string::npos);
+  return o;
+}
+
 void clean_scratch() {
   DIR* d = opendir(g_scratch.c_str());
   if (!d) return;
@@ -104,11 +121,20 @@ bool read_file(const std::string& path, std::string& out) {
 }
 bool file_exists(const std::string& path) { struct stat st; return stat(path.c_str(), &st) == 0; }
 
+static std::string g_cap_err_path;
+static void rm_cap_err_at_exit() { if (!g_cap_err_path.empty()) unlink(g_cap_err_path.c_str()); }
+
 void capture_begin() {
   fflush(stdout); fflush(stderr);
   if (g_cap_out < 0) {
     g_cap_out = memfd_create("simout", 0);
-    g_cap_err = memfd_create("simerr", 0);
+    // stderr of the simulated process goes to a real file named like the sanitizer logs, so that a
+    // fatal UBSan report (which ignores log_path) survives the death of the worker and is picked up
+    // by the supervisor together with the ASan log
+    g_cap_err_path = "/dev/shm/verif-san." + std::to_string((long)getpid()) + ".stderr";
+    g_cap_err = open(g_cap_err_path.c_str(), O_RDWR | O_CREAT | O_TRUNC | O_CLOEXEC, 0600);
+    if (g_cap_err < 0) g_cap_err = memfd_create("simerr", 0);
+    else atexit(rm_cap_err_at_exit);
     g_saved_out = dup(1);
     g_saved_err = dup(2);
   }
